@@ -158,6 +158,31 @@ def _walk_permuter(perm_dirs, perm_files):
     return real, walk
 
 
+PROBES = {
+    # pairs in which one file defines a name/alias that would change the reading of the other if
+    # per-file analyzer state leaked from file to file
+    "probe_alias.py": "import re as regex\n\n\ndef scan(lines):\n    for line in lines:\n        regex.search('x+', line)\n",
+    "probe_regex.py": "import regex\n\n\ndef scan(lines):\n    for line in lines:\n        regex.search('x+', line)\n",
+    "probe_list.py": "def collect(items):\n    result = []\n    for item in items:\n        result += [item]\n    return result\n",
+    "probe_str.py": "def build(items):\n    result = \"\"\n    for item in items:\n        result += str(item)\n    return result\n",
+    "probe_logger.py": "import logging\n\nprint = logging.getLogger(__name__).info\n\n\ndef show(value):\n    print(value)\n",
+    "probe_print.py": "def show(value):\n    print(value)\n",
+    "probe_tool": "#!/usr/bin/env python3\nimport sys\n\n\ndef main(argv):\n    print(argv)\n    if len(argv) > 7:\n        return 42\n    return 0\n",
+    "probe_runner": "#!/bin/sh\n# def main(argv): print(argv)\necho 42\nexit 7\n",
+    "probe_const_a.ts": "const regex = RegExp;\nexport function scan(lines: string[]) {\n  for (const l of lines) {\n    new regex('x+').test(l);\n  }\n}\n",
+    "probe_const_b.ts": "export function scan(lines: string[]) {\n  let out = '';\n  for (const l of lines) {\n    out += l;\n  }\n  return out;\n}\n",
+}
+
+
+def _pair_corpus():
+    files = dict(PROBES)
+    zoo, _cfg, index = load.zoo_project()
+    for (name, lang), paths in index.items():
+        if lang == "python" and not load.linters()[name].get("cross_file") and len(paths) == 1:
+            files[f"z_{name.replace('-', '_')}.py"] = zoo[paths[0]]
+    return files
+
+
 def items(tier: str, seed: int):
     out = []
     depth = 4 if tier == "quick" else 5
@@ -169,6 +194,10 @@ def items(tier: str, seed: int):
     for block in chunks(perms, 20):
         out.append({"kind": "perm", "perms": block})
     out.append({"kind": "walk"})
+    corpus = sorted(_pair_corpus())
+    pairs = [(a, b) for a in corpus for b in corpus if a != b]
+    for block in chunks(pairs, 40):
+        out.append({"kind": "pairs", "pairs": block})
     seeds = range(8) if tier == "quick" else range(32)
     for cmd_block in chunks(load.ALL_COMMANDS, 2):
         out.append({"kind": "seed", "commands": cmd_block, "seeds": list(seeds)})
@@ -215,6 +244,34 @@ def run_item(item) -> Acc:
                 acc.edge()
                 if g != refcli[cmd]:
                     acc.fail({"part": "order", "via": "cli", "command": cmd}, {"order": list(perm), "cli": cmd}, refcli[cmd][1][:4], g[1][:4], "CLI result depends on argument order")
+        remove(root)
+    elif k == "pairs":
+        # per-file rules: what is reported for b must not depend on a having been linted first
+        from src.orchestrator.core import Orchestrator  # noqa: PLC0415
+
+        corpus = _pair_corpus()
+        root = project(corpus)
+        # reference: the second file alone in its own fresh interpreter (no history of any kind)
+        bs = sorted({b for _a, b in item["pairs"]})
+        fresh = obs.api_subprocess(root, None, [[b] for b in bs])
+        alone = {}
+        for b, vs in zip(bs, fresh):
+            if vs is None:
+                acc.fail({"part": "order", "via": "fresh-process-reference", "mode": "no-output"}, {"first": None, "second": b, "pair": True}, "JSON", None)
+                vs = []
+            alone[b] = [t for t in obs.norm(vs, root, root) if not t[0].startswith(("dry", "stringly"))]
+        for a, b in item["pairs"]:
+            env.reset_caches()
+            both = [t for t in _norm(Orchestrator(project_root=root).lint_files([root / a, root / b]), root) if t[1] == b and not t[0].startswith(("dry", "stringly"))]
+            acc.case()
+            acc.edge()
+            acc.valid()
+            if alone[b]:
+                acc.nt(("pair", a, b))
+            if both != alone[b]:
+                rules = sorted({t[0] for t in set(both) ^ set(alone[b])})
+                for rid in rules or ["<multiplicity>"]:
+                    acc.fail({"part": "order", "via": "preceding-file", "rule": rid}, {"first": a, "second": b, "pair": True, "earlier_pairs_in_this_process": [list(x) for x in item["pairs"][: item["pairs"].index((a, b) if (a, b) in item["pairs"] else [a, b])]]}, [list(t) for t in alone[b] if t[0] == rid][:3], [list(t) for t in both if t[0] == rid][:3], f"findings for {b} change when {a} is linted before it in the same run")
         remove(root)
     elif k == "walk":
         from src.orchestrator.core import Orchestrator  # noqa: PLC0415
@@ -305,6 +362,9 @@ def replay_case(case) -> list[dict]:
     elif "order" in case:
         a = run_item({"kind": "perm", "perms": [tuple(case["order"])]})
         return [f for f in a.failures if f["case"].get("cli") == case["cli"]]
+    elif case.get("pair"):
+        hist = [tuple(x) for x in case.get("earlier_pairs_in_this_process", [])] + [(case["first"], case["second"])]
+        return [f for f in run_item({"kind": "pairs", "pairs": hist}).failures if f["case"]["first"] == case["first"] and f["case"]["second"] == case["second"]]
     elif "dir_perm" in case:
         return run_item({"kind": "walk"}).failures
     elif "seed" in case:
